@@ -123,6 +123,17 @@ func wrapCustom(op *CustomOp, cfgRec *Recorder) eval.Operator {
 		var err error
 		if op.CtxFn != nil && ctx != nil {
 			res, err = op.CtxFn(ctx, args)
+			// An operator's arguments are its own until it returns - also while it evaluates other expressions on the
+			// context it was handed. (The copy in args shields the operator's logic; the slice the engine handed over is
+			// compared here with what it held at call time.)
+			if err == nil && len(params) == len(args) {
+				for i := range args {
+					if !sameValue(params[i], args[i]) {
+						res, err = nil, fmt.Errorf("harness: the argument slice handed to %s changed while the operator was running (argument %d was %s, is %s)", op.Name, i, valTextAny(args[i]), valTextAny(params[i]))
+						break
+					}
+				}
+			}
 		} else {
 			res, err = op.Fn(args)
 		}
